@@ -31,7 +31,10 @@ func rateOf(in *mvInput) int {
 }
 
 func runDelta(in *mvInput, r *rand.Rand, n int, sink *CaseSink) {
-	in.Delta = true
+	// a quarter of the plain runs use StoreToDisk WITHOUT delta interleaving: the backup then holds the
+	// snapshot open to the end (the visit of an open snapshot on a moving store, C10)
+	nonDelta := !in.Fine && r.Intn(4) == 0
+	in.Delta = !nonDelta
 	e := mvGenerate(r, in, n, false)
 	g := &mvGen{r: r, e: e, nkeys: 12}
 	// several epochs over a dozen keys so that versions pile up and the range split yields shards
@@ -70,7 +73,17 @@ func runDelta(in *mvInput, r *rand.Rand, n int, sink *CaseSink) {
 	}
 	st.GetAccesBarrier().Release(tok)
 	// StoreToDisk consumes one reference; the handles the history holds stay until a segment closes them
-	snap.Open()
+	seg0 := "[]"
+	if nonDelta {
+		// the reference is held until StoreToDisk returns: part of the modelled history, and the
+		// generator must not close the snapshot's last handle under the backup
+		a0 := len(e.coqOps)
+		g.do(mvOp{Op: "open", Sn: int(sn)})
+		seg0 = cList(e.coqOps[a0:])
+		g.protect = sn
+	} else {
+		snap.Open()
+	}
 	var segs, outs []string
 	changed := 0
 	var hmu sync.Mutex
@@ -128,13 +141,13 @@ func runDelta(in *mvInput, r *rand.Rand, n int, sink *CaseSink) {
 		}
 		// aim at the snapshot being stored: release it, delete what it sees, collect
 		if r.Intn(2) == 0 {
-			for e.ref.snapRef[sn] > 0 {
+			for e.ref.snapRef[sn] > 0 && !(nonDelta && e.ref.snapRef[sn] == 1) {
 				g.do(mvOp{Op: "close", Sn: int(sn)})
 			}
 			if r.Intn(3) > 0 {
 				// collection is in snapshot order: release the older snapshots too
 				for _, o := range g.openSnaps() {
-					for e.ref.snapRef[o] > 0 {
+					for e.ref.snapRef[o] > 0 && !(nonDelta && o == sn && e.ref.snapRef[o] == 1) {
 						g.do(mvOp{Op: "close", Sn: int(o)})
 					}
 				}
@@ -156,6 +169,10 @@ func runDelta(in *mvInput, r *rand.Rand, n int, sink *CaseSink) {
 		}
 	}
 	serr := e.db.StoreToDisk(dir, snap, 1, nil)
+	if nonDelta {
+		e.ref.snapRef[sn]-- // StoreToDisk has given its reference back
+		g.protect = 0
+	}
 	nitro.VerifYieldHook = prevHook
 	e.liveIter = false
 	bad, sig := "", ""
@@ -185,7 +202,7 @@ func runDelta(in *mvInput, r *rand.Rand, n int, sink *CaseSink) {
 		}
 		delta = append(delta, readItems(p)...)
 	}
-	coq := fmt.Sprintf("CDelta %d %s %d %s %s [] %s %s %s %s", in.Cmp, preOps, sn, cZ(int64(rateOf(in))), cList(pivots), cList(segs), cList(shardItems), coqItems(delta), cList(outs))
+	coq := fmt.Sprintf("CDelta %d %s %d %s %s %s %s %s %s %s", in.Cmp, preOps, sn, cZ(int64(rateOf(in))), cList(pivots), seg0, cList(segs), cList(shardItems), coqItems(delta), cList(outs))
 	// oracle 1: data ∪ delta = the snapshot, data strictly increasing
 	key := e.ref.key
 	have := map[string]bool{}
@@ -214,7 +231,7 @@ func runDelta(in *mvInput, r *rand.Rand, n int, sink *CaseSink) {
 	}
 	_ = key
 	// oracle 2: restore
-	in2 := &mvInput{Mode: "mvcc", Cmp: in.Cmp, MM: in.MM, Delta: true}
+	in2 := &mvInput{Mode: "mvcc", Cmp: in.Cmp, MM: in.MM, Delta: in.Delta}
 	e2 := newExec(in2)
 	snap2, lerr := e2.db.LoadFromDisk(dir, []int{1, 2, 8}[len(segs)%3], nil)
 	if lerr != nil {
@@ -239,7 +256,7 @@ func runDelta(in *mvInput, r *rand.Rand, n int, sink *CaseSink) {
 	// LoadFromDisk (in a child: a panic in a loader goroutine cannot be recovered) fail, not crash and
 	// not succeed with other content
 	damaged := 0
-	for k := 0; bad == "" && damaged < 3; k++ {
+	for k := 0; bad == "" && damaged < 2; k++ {
 		p := filepath.Join(dir, "delta", "shard-"+strconv.Itoa(k))
 		orig, err := os.ReadFile(p)
 		if err != nil {
@@ -262,7 +279,7 @@ func runDelta(in *mvInput, r *rand.Rand, n int, sink *CaseSink) {
 			os.WriteFile(p, mod, 0644)
 			damaged++
 			t0 := time.Now()
-			res, fail := runChild(20*time.Second, "child-load", "-dir", dir, "-cmp", fmt.Sprint(in.Cmp), "-delta", "true", "-conc", "2")
+			res, fail := runChild(20*time.Second, "child-load", "-dir", dir, "-cmp", fmt.Sprint(in.Cmp), "-delta", fmt.Sprint(in.Delta), "-conc", "2")
 			if os.Getenv("VERIF_DEBUG") != "" {
 				fmt.Fprintf(os.Stderr, "child-load k=%d off=%d bit=%#x: %v ok=%v err=%q fail=%q\n", k, off, bit, time.Since(t0), res.Ok, res.Err, fail)
 				if time.Since(t0) > 300*time.Millisecond {
@@ -284,7 +301,7 @@ func runDelta(in *mvInput, r *rand.Rand, n int, sink *CaseSink) {
 		os.WriteFile(p, orig, 0644)
 	}
 	rec := &mvInput{Mode: "delta", Cmp: in.Cmp, MM: in.MM, GenSeed: in.GenSeed, GenN: in.GenN, Rate: in.Rate, Fine: in.Fine}
-	idx := sink.Add(coq, rec, fmt.Sprintf("delta-cmp%d-mm%v", in.Cmp, in.MM), len(delta) >= 1 && changed >= 2 && len(want) >= 3)
+	idx := sink.Add(coq, rec, fmt.Sprintf("delta%v-cmp%d-mm%v", in.Delta, in.Cmp, in.MM), (len(delta) >= 1 || nonDelta) && changed >= 2 && len(want) >= 3)
 	if bad != "" {
 		sink.Fail(idx, bad, sig, rec)
 	}
